@@ -2,8 +2,8 @@
 From InfOCF Require Import Core Tol Form Model Manager ThmManager.
 From InfOCFProps Require Import Ex.
 From Coq Require Import Permutation.
-From InfOCF Require Import PyLib PyStr TieDisp.
-From InfOCFGen Require Import SrcDisp.
+From InfOCF Require Import PyLib PyStr TieDisp TieInf.
+From InfOCFGen Require Import SrcDisp SrcInf.
 Local Open Scope list_scope.
 Notation length := List.length.
 Notation concat := List.concat.
@@ -51,3 +51,12 @@ Theorem C13_source_dispatch_table :
   dispatch "system-p" "rc2" = None.
 Proof. exact dispatch_table. Qed.
 Print Assumptions C13_source_dispatch_table.
+
+(* SOURCE: Inference.general_inference, through which single_inference and every parallel worker answer a query, as translated from
+   /repo's inference/inference.py. Its parameters are the query, the weak flag of the manager and the operator body; it receives no
+   other entry of the manager's state and hands none back (the translator refuses any other use of epistemic_state), and its answer is
+   the trivial-query short cut or else the operator body's answer for this very query - nothing an earlier query left behind. *)
+Theorem C13_source_general_inference_reads_only_its_query : forall n impl weakly q b, impl q weakly tt = Return b ->
+  py_general_inference n impl weakly q tt tt = Return (trivial n q || b).
+Proof. intros n impl weakly q b. exact (tie_general_inference n impl weakly q tt tt b). Qed.
+Print Assumptions C13_source_general_inference_reads_only_its_query.
